@@ -47,7 +47,7 @@ void chk_describe(FILE *f)
 
 /* descriptor kept outside the world so that it can be rebuilt at several capacities */
 #define MAXC 14
-static struct dcmd { char name[16]; char desc[24]; bool has_desc, only_test, disable, implicit; int grp; unsigned hmask; int nv; struct { int type, access; size_t size; char name[6]; bool named; } v[6]; } D[MAXC];
+static struct dcmd { char name[16]; char desc[24]; bool has_desc, only_test, disable, implicit; int grp; unsigned hmask; int nv; struct { int type, access; size_t size; char name[8]; bool named, nodata; } v[6]; } D[MAXC];
 static int ND, NG; static bool gdis[MAXGRP];
 static void gen_descriptor(void)
 {
@@ -56,11 +56,11 @@ static void gen_descriptor(void)
         for (int i = 0; i < ND; i++) {
                 struct dcmd *d = &D[i]; memset(d, 0, sizeof *d);
                 snprintf(d->name, sizeof d->name, "+C%02d%s", i, chance(30) ? "LONGER" : chance(20) ? "x" : "");
-                d->has_desc = chance(40); snprintf(d->desc, sizeof d->desc, "d%d%s", i, chance(50) ? " some text" : ""); if (chance(8)) d->desc[0] = 0;      /* an empty description is still a description: the newline is printed */
+                d->has_desc = chance(40); snprintf(d->desc, sizeof d->desc, "d%d%s", i, chance(50) ? " some text" : chance(30) ? " 0-100% %s%d" : "");      /* descriptor strings are data, not formats */ if (chance(8)) d->desc[0] = 0;      /* an empty description is still a description: the newline is printed */
                 d->only_test = chance(12); d->disable = chance(12); d->implicit = chance(10); d->grp = i < NG ? i : (int)rn((unsigned)NG);
                 d->hmask = rn(16); if (d->implicit) d->hmask &= 4;
                 d->nv = chance(65) ? 1 + (int)rn(6) : 0;
-                for (int j = 0; j < d->nv; j++) { d->v[j].type = (int)rn(5); d->v[j].access = (int)rn(3); d->v[j].size = d->v[j].type <= CAT_VAR_NUM_HEX ? (size_t[]){ 1, 2, 4 }[rn(3)] : 1 + rn(8); d->v[j].named = chance(60); snprintf(d->v[j].name, sizeof d->v[j].name, "V%d", j); }
+                for (int j = 0; j < d->nv; j++) { d->v[j].type = (int)rn(5); d->v[j].access = (int)rn(3); d->v[j].size = d->v[j].type <= CAT_VAR_NUM_HEX ? (size_t[]){ 1, 2, 4 }[rn(3)] : 1 + rn(8); d->v[j].named = chance(60); snprintf(d->v[j].name, sizeof d->v[j].name, chance(10) ? "V%d%%s" : "V%d", j); d->v[j].nodata = d->only_test && chance(30); }      /* a test-only command documents its parameters: such variables need no storage */
         }
         /* the help command comes last, in the last group */
         struct dcmd *h = &D[ND]; memset(h, 0, sizeof *h); strcpy(h->name, "#H"); h->hmask = 1; h->grp = NG - 1; ND++;
@@ -82,7 +82,8 @@ static void build(size_t capA, bool shared, size_t capU)
                         c->only_test = d->only_test; c->disable = d->disable; c->implicit_write = d->implicit;
                         c->run = (d->hmask & 1) ? h_run : NULL; c->read = (d->hmask & 2) ? h_read : NULL; c->write = (d->hmask & 4) ? h_write : NULL; c->test = (d->hmask & 8) ? h_test : NULL;
                         struct cat_variable *v = w_vars(c, (size_t)d->nv);
-                        for (int q = 0; q < d->nv; q++) { v[q].type = (cat_var_type)d->v[q].type; v[q].access = (cat_var_access)d->v[q].access; v[q].name = d->v[q].named ? xstr(d->v[q].name) : NULL; uint8_t *p = w_vdata(&v[q], d->v[q].size); for (size_t b = 0; b < d->v[q].size; b++) p[b] = (uint8_t)('a' + rn(26)); if (v[q].type == CAT_VAR_BUF_STRING) p[rn((unsigned)d->v[q].size)] = 0; }
+                        for (int q = 0; q < d->nv; q++) { v[q].type = (cat_var_type)d->v[q].type; v[q].access = (cat_var_access)d->v[q].access; v[q].name = d->v[q].named ? xstr(d->v[q].name) : NULL; if (d->v[q].nodata) { v[q].data = NULL; v[q].data_size = d->v[q].size; CNT("variables_without_storage_on_test_only_commands"); continue; }
+                                uint8_t *p = w_vdata(&v[q], d->v[q].size); for (size_t b = 0; b < d->v[q].size; b++) p[b] = (uint8_t)('a' + rn(26)); if (v[q].type == CAT_VAR_BUF_STRING) p[rn((unsigned)d->v[q].size)] = 0; }
                 }
         }
         if (shared) w_buffers(capA * 2 + rn(2), true, 0); else w_buffers(capA, false, capU);
@@ -240,6 +241,32 @@ static void sweep_big_list(long item)
         nontrivial(hash_u64((uint64_t)n, 1900 + (uint64_t)item));
         CNT("big_table_lists");
 }
+/* groups that are views of one command array (a "basic" and a "full" command set): every registration is listed under its own group's disable flag */
+static void view_groups_case(void)
+{
+        w_begin();
+        size_t n = 3 + rn(4), k = 1 + rn((unsigned)n - 1);
+        bool first_is_view = chance(50), d_full = chance(40), d_view = chance(40);
+        struct cat_command *arr;
+        char nm[12];
+        if (!first_is_view) arr = w_group(n, d_full);
+        else { arr = xalloc(n * sizeof *arr); memset(arr, 0, n * sizeof *arr); w_group_view(arr, k, d_view); w_group_view(arr, n, d_full); }
+        for (size_t j = 0; j < n; j++) {
+                snprintf(nm, sizeof nm, "+V%zu", j); arr[j].name = xstr(nm);
+                unsigned hm = 1 + rn(15); arr[j].run = (hm & 1) ? h_run : NULL; arr[j].read = (hm & 2) ? h_read : NULL; arr[j].write = (hm & 4) ? h_write : NULL; arr[j].test = (hm & 8) ? h_test : NULL;
+                arr[j].disable = chance(15); arr[j].only_test = chance(15);
+        }
+        if (!first_is_view) w_group_view(arr, k, d_view);
+        struct cat_command *h = w_group(1, false); h[0].name = xstr("#H"); h[0].run = h_run;
+        snprintf(note, sizeof note, "groups that are views of one array: %zu commands, view of the first %zu (%s), full group %s, view registered %s", n, k, d_view ? "disabled" : "enabled", d_full ? "disabled" : "enabled", first_is_view ? "first" : "second");
+        size_t cap = 40; bool shared = chance(50);
+        w_buffers(shared ? cap * 2 : cap, shared, 16);
+        w_init((int)rn(2));
+        POLICY = policy; ON_UNIT = on_unit; test_chain = false;
+        check_list_via("#H", "AT#H");
+        CNT("lists_of_tables_with_view_groups");
+        nontrivial(hash_u64((uint64_t)(n * 64 + k * 8 + d_full * 4 + d_view * 2 + first_is_view), 1950));
+}
 #define N_BIG 10
 struct case_budget chk_budget(const char *tier)
 {
@@ -250,6 +277,7 @@ void chk_run_case(uint64_t seed, long c, bool is_sweep)
 {
         (void)seed; note[0] = 0;
         if (is_sweep) { sweep_big_list(c); return; }
+        if (chance(8)) { view_groups_case(); return; }
         gen_descriptor();
         test_chain = chance(50);
         int target = (int)rn((unsigned)ND - 2);
